@@ -85,7 +85,7 @@ func DistanceLineToLine(line1Start, line1End, line2Start, line2End geom.Coord) f
 	if Equals(line1Start, line1End) {
 		return DistancePointToLine(line1Start, line2Start, line2End)
 	}
-	if Equals(line2Start, line1End) {
+	if Equals(line2Start, line2End) {
 		return DistancePointToLine(line2Start, line1Start, line1End)
 	}
 
@@ -120,15 +120,18 @@ func DistanceLineToLine(line1Start, line1End, line2Start, line2End geom.Coord) f
 		s = (b*e - c*d) / denom
 		t = (a*e - b*d) / denom
 	}
-	switch {
-	case s < 0:
-		return DistancePointToLine(line1Start, line2Start, line2End)
-	case s > 1:
-		return DistancePointToLine(line1End, line2Start, line2End)
-	case t < 0:
-		return DistancePointToLine(line2Start, line1Start, line1End)
-	case t > 1:
-		return DistancePointToLine(line2End, line1Start, line1End)
+	if s < 0 || s > 1 || t < 0 || t > 1 {
+		/**
+		 * The closest approach of the two (infinite) lines lies outside at
+		 * least one of the segments, so the minimum distance is attained at an
+		 * endpoint of one of the segments. Which endpoint cannot be told from
+		 * s and t alone when both are out of range, so take the minimum.
+		 */
+		return min(
+			DistancePointToLine(line1Start, line2Start, line2End),
+			DistancePointToLine(line1End, line2Start, line2End),
+			DistancePointToLine(line2Start, line1Start, line1End),
+			DistancePointToLine(line2End, line1Start, line1End))
 	}
 	/**
 	 * The closest points are in interiors of segments,
